@@ -60,6 +60,8 @@ def gen_grid(rng, spec, tier="quick", complete=False):
     limit = 7 if tier == "quick" else 9
     if len(pts) > limit and not complete:
         pts = sorted(rng.sample(pts, limit))
+    if not complete and rng.random() < 0.15 and pts:
+        pts = pts + [rng.choice(pts) for _ in range(rng.randint(1, 2))]     # a time point given more than once
     rng.shuffle(pts)       # grids may be given in any order
     return [fs(p) for p in pts]
 
